@@ -1155,6 +1155,17 @@ def run_corpus(ctx, stats, report):
         if mt:
             diffs = [x for x in diffs if x[0] in mt.group(1).split(',')]
         stats['corpus'] = stats.get('corpus', 0) + 1
+        ma = re.search(r'^// aligns: (.*)$', src, re.M)
+        if ma:
+            # alignment of the emitted definitions themselves (the byte images do not show it)
+            want = dict((kv.split('=')[0], int(kv.split('=')[1])) for kv in ma.group(1).split())
+            for tname, triple, rules in TARGETS:
+                rc, out, err = ctx.qbe(src, target=tname)
+                got = dict((m.group(1), int(m.group(2) or 0)) for m in
+                           re.finditer(r'^(?:export )?(?:thread )?data \$([\w.]+) = (?:align (\d+) )?\{', out, re.M)) if rc == 0 else {}
+                for name, al in sorted(want.items()):
+                    if got.get(name) != al:
+                        diffs.append((tname, 'value', 'definition of %s has alignment %s, the ABI alignment of its type is %d' % (name, got.get(name), al)))
         if expect == 'reject':
             rcs = [ctx.qbe(src, target=t[0])[0] for t in TARGETS]
             if any(rc == 0 for rc in rcs):
